@@ -60,7 +60,7 @@ Proof.
 Qed.
 
 (* a zero budget runs no pass *)
-Lemma budget_zero_identity p c : propagate 0 0 p c = Ok (set_blocks c (c_blocks c)).
+Lemma budget_zero_identity p idom c : propagate 0 0 p idom c = Ok (set_blocks c (c_blocks c)).
 Proof. reflexivity. Qed.
 
 (* the pass loop: one more unit of budget is exactly one more pass, taken only
@@ -78,7 +78,7 @@ Lemma values_passes_fix k p env bs bs' env' :
   values_passes (S k) p env bs = Ok (bs', env').
 Proof. intros H. cbn [values_passes]. rewrite H. reflexivity. Qed.
 
-Lemma degrees_passes_fix k env bs bs' env' :
-  pd_blocks env false bs = (false, bs', env') ->
-  degrees_passes (S k) env bs = (bs', env').
+Lemma degrees_passes_fix k idom env bs bs' env' :
+  pd_blocks idom env false [] bs = (false, bs', env') ->
+  degrees_passes (S k) idom env bs = (bs', env').
 Proof. intros H. cbn [degrees_passes]. rewrite H. reflexivity. Qed.
